@@ -337,7 +337,7 @@ def gen_natural(rng, small=False, integer_span=False, flavour=None, light=False)
     lo, hi = rng.choice([(0.5, 10.0), (0.5, 10.0), (0.5, 1.0), (5.0, 10.0), (0.5, 3.0)])
     if flavour == "long_drift":        # the first pass misses the train's ends, the second pass has real work
         n, (lo, hi) = rng.randrange(270, 301), (7.0, 10.0)
-    if flavour == "long_drift_light":
+    if flavour in ("long_drift_light", "long_drift_mid"):
         n, (lo, hi) = rng.randrange(270, 301), (7.0, 9.0)
     t0 = rng.choice([0.0, rng.uniform(0, 1000.0), rng.uniform(0, 20000.0)])
     t = t0 + np.cumsum([rng.uniform(lo, hi) for _ in range(n)])
@@ -345,6 +345,8 @@ def gen_natural(rng, small=False, integer_span=False, flavour=None, light=False)
     off = rng.choice([0.0, rng.uniform(-1, 1), rng.uniform(-300, 300), rng.uniform(-300, 300), rng.uniform(-30, 30)])
     if flavour == "long_drift":
         drift = rng.choice([-1, 1]) * rng.choice([85.0, 100.0, rng.uniform(85, 100)])
+    if flavour == "long_drift_mid":    # quick tier's one heavier train: ~15-18 % of the events left to the second pass
+        drift = rng.choice([-1, 1]) * min(100.0, max(85.0, 1e6 * rng.uniform(0.235, 0.245) / (t[-1] - t[0])))
     if flavour == "long_drift_light":  # drift*span just above 2*tbin: ~10 % of the events left to the second pass (cheap model run)
         drift = rng.choice([-1, 1]) * min(100.0, max(85.0, 1e6 * rng.uniform(0.21, 0.24) / (t[-1] - t[0])))
     jmax = rng.choice([0.0, 1e-4, 1e-4, 1e-5, rng.uniform(0, 1e-4)])
@@ -353,7 +355,7 @@ def gen_natural(rng, small=False, integer_span=False, flavour=None, light=False)
     tb = np.array([q30(v * (1 + drift * 1e-6) + off + rng.uniform(-jmax, jmax)) for v in t])
     ka, kb = rng.randrange(0, 6), rng.randrange(0, 6)
     pos = rng.random()
-    if flavour in ("long_drift", "long_drift_light"):        # missing events on both sides, different numbers: non-square candidate matrix
+    if flavour in ("long_drift", "long_drift_light", "long_drift_mid"):        # missing events on both sides, different numbers: non-square candidate matrix
         ka = rng.randrange(1, 6)
         kb = rng.choice([k for k in range(1, 6) if k != ka])
         pos = rng.choice([0.1, 0.1, 0.3, 0.9])
@@ -662,7 +664,7 @@ def run(ctx):
     common.proof_obligations(ctx, whitelist=[])
     rng = ctx.rng
     thorough = ctx.thorough()
-    n_nat = 1600 if thorough else 100
+    n_nat = 1600 if thorough else 80
     n_bnd = 12000 if thorough else 1500
     n_int = 150 if thorough else 15
     n_long = 45 if thorough else 1
@@ -670,7 +672,7 @@ def run(ctx):
     cases = [gen_natural(rng, light=not thorough) for _ in range(n_nat)] + [gen_boundary(rng) for _ in range(n_bnd)] + \
             [gen_integer_span(rng) for _ in range(n_int)] + \
             [gen_boundary(rng, free=True) for _ in range(n_bnd // 3)] + \
-            [gen_natural(rng, flavour="long_drift") for _ in range(n_long)] + \
+            [gen_natural(rng, flavour="long_drift" if thorough else "long_drift_mid") for _ in range(n_long)] + \
             [gen_natural(rng, flavour="long_drift_light") for _ in range(40 if thorough else 5)] + \
             [gen_natural(rng, flavour="ends_missing", small=rng.random() < 0.5) for _ in range(n_ends)]
     for c in cases:
@@ -762,8 +764,11 @@ def run(ctx):
     cin = [enc_input_coarse(cases[ci], res["n"]) for ci, res in freeb]
     cout = ext.run_many(cin, nproc=min(6, max(1, len(cin) // 30))) if cin else []
     ctx.measurements.setdefault('phase_s', {})['T_stageB1_coarse'] = round(ctx.elapsed(), 1)
-    agree = [len(o) == 6 and o[0] == 1 and abs(o[1] / 10 ** 15 - res["delta"]) <= 1e-9 for (ci, res), o in zip(freeb, cout)]
-    fin = [enc_input_full(cases[ci], res["n"]) if ok else None for (ci, res), ok in zip(freeb, agree)]
+    agree = [len(o) == 6 and o[0] == 1 and abs(o[1] / 10 ** 15 - res["delta"]) <= 1e-10 for (ci, res), o in zip(freeb, cout)]
+    # B2 (whole function in one model run, `sync_full`) on the short trains; longer trains continue in stage A with the
+    # implementation's delta_t, which B1 has just shown to be the model's own (no second cross-correlation needed)
+    fin = [enc_input_full(cases[ci], res["n"]) if ok and len(cases[ci]["tsa"]) <= 40 else None
+           for (ci, res), ok in zip(freeb, agree)]
     fsel = [f for f in fin if f is not None]
     fres = ext.run_many(fsel, nproc=min(6, max(1, len(fsel) // 30))) if fsel else []
     it = iter(fres)
@@ -803,7 +808,8 @@ def run(ctx):
                          "source's expression) %.12f" % (co["delta"], res["delta"]), slim(case), {"kind": case["kind"]})
             continue
         dist["coarse_offset_compared"] += 1
-        conclusive[ci] = (fi, fo, mod)
+        if fi is not None:
+            conclusive[ci] = (fi, fo, mod)
     for ci, res in pending:
         if ci in conclusive:
             continue
